@@ -51,6 +51,7 @@ DESIGN_T = [
     dict(module="MC_ReqDesign", cfg="MC_ReqDesign_t.cfg", tier=T, timeout=3000),
     dict(module="MC_ReqDesign", cfg="MC_ReqDesign_ens_t.cfg", tier=T, timeout=3000),
     dict(module="MC_ReqDesign", cfg="MC_ReqDesign_ens2_t.cfg", tier=T, timeout=3000),
+    dict(module="MC_ReqDesign", cfg="MC_ReqDesign_ens3_t.cfg", tier=T, timeout=3000),
     dict(module="ClassicQDesign", cfg="MC_ClassicQDesign_upd_t.cfg", tier=T, timeout=3000),
     dict(module="ClassicQDesign", cfg="MC_ClassicQDesign_merge_t.cfg", tier=T, timeout=3000),
 ]
@@ -80,7 +81,9 @@ def run_c07(oc, repo, seed, tier):
 # ---------------------------------------------------------------------------------------------------------------------
 # C08
 # ---------------------------------------------------------------------------------------------------------------------
-N_SCENARIOS = 15      # harness/coin_rec.cpp --count
+# harness/coin_rec.cpp --count 1 [--shapes4 1]: parts 0..14 single scenarios (the classic ones carry the exhaustive down-sampling
+# merges too), then the REQ merge-shape batches: 108 scenarios over 3 sketches (6 parts), thorough + 648 over 4 sketches (12 parts)
+N_PARTS = {Q: 21, T: 33}
 
 
 def coin_nontrivial(evs):
@@ -91,15 +94,17 @@ def coin_nontrivial(evs):
 
 COIN_JOB = job("quantcoin",
     harness="coin_rec", inc=["common", "kll", "req", "quantiles"], spec="TraceCoin", owners=["C08"],
-    files={Q: N_SCENARIOS, T: N_SCENARIOS},
-    args=lambda tier, seed, k, profile: ["--seed", seed // 1000, "--fmax", 12 if tier == Q else 16, "--part", k],
+    files=N_PARTS,
+    args=lambda tier, seed, k, profile: ["--seed", seed // 1000, "--fmax", 12 if tier == Q else (16 if k < 15 else 14), "--part", k,
+                                         "--shapes4", 0 if tier == Q else 1],
     nontrivial=coin_nontrivial, heap="6g", par=6,
 )
 
 ERR_JOB = job("quanterr",
     harness="quant_err_rec", inc=["common", "kll", "req", "quantiles"], spec="TraceQuantErr", owners=["C08"], flags=("-O2",),
-    files={Q: 3, T: 3},
-    args=lambda tier, seed, k, profile: ["--seed", seed // 1000 + 17 * k, "--fam", k, "--trials", 24 if tier == Q else 96,
+    files={Q: 4, T: 4},     # kll, classic, req (published error: flat + depth-2 mixed-k trees), classic down-sampling merge (unbiasedness)
+    args=lambda tier, seed, k, profile: ["--seed", seed // 1000 + 17 * k, "--fam", k,
+                                         "--trials", (2100 if tier == Q else 30000) if k == 3 else (24 if tier == Q else 96),
                                          "--n", 100000 if tier == Q else 1000000],
     nontrivial=lambda evs: sum(1 for e in evs if e["e"] == "Trial") >= 8,
 )
@@ -107,13 +112,20 @@ ERR_JOB = job("quanterr",
 
 @prop("C08", "model_checking",
       "(a) exhaustive coin trees on the real classes: 15 fixed scenarios (KLL k=8, REQ k=4 both modes, classic k=2; plain updates, duplicates, merges "
-      "lvalue/rvalue/unequal k, an exact sketch absorbing an estimating one) are executed once per coin string for ALL 2^f strings (f <= 12 quick, 16 thorough) "
+      "lvalue/rvalue/unequal k, an exact sketch absorbing an estimating one), 108 REQ merge-shape scenarios (every merge tree over 3 sketches whose level-0 "
+      "compactors are never compacted / even non-zero / odd, two length variants; thorough: + 648 over 4 sketches) and 6 classic down-sampling merges (k ratio "
+      "2, 4, 8, every stride-offset sequence dictated by seeding random_utils::rand) are executed once per coin string for ALL 2^f strings (f <= 12 quick, 16 thorough) "
       "through the coin hook; TLC requires every leaf to draw exactly f flips and sum over leaves of rank(v) * n = 2^f * true weight for every probe value, "
       "inclusive and exclusive; (b) MC: martingale / schedule invariants of the KLL, REQ (ensemble semantics) and classic design models, exhaustive for small "
-      "constants; (c) published error: seeded long-stream trials judged by integer thresholds at 6 standard errors + 0.02 (level: exploration). "
+      "constants; (c) published error: seeded long-stream trials (single sketches, 8-way merges, depth-2 merge trees with k 16 vs 200 / 128 in every position) "
+      "judged per group by integer thresholds at 6 standard errors + 0.02, and mean signed rank error = 0 for the classic down-sampling merge "
+      "(2100 / 30000 seeded trials, 6 standard errors + 0.002) (level: exploration). "
       "A coin-tree segment is non-trivial when two of its leaves answer differently; distinct = distinct segment content hash",
       ["the coin hook (random_utils::random_bit.source, -DDATASKETCHES_VERIF) is the only source of the sketches' fair coin; the classic down-sampling merge "
-       "draws its offset from random_utils::rand and is outside (a) and (b)",
+       "draws its offsets from random_utils::rand: (a) enumerates them by seeding that engine, assuming one std::uniform_int_distribution<uint16_t>(0, stride-1) "
+       "draw per populated source level (the harness verifies the number of engine draws and skips the exhaustive scenario otherwise); the statistical "
+       "unbiasedness trials of (c) do not depend on that assumption; (b) does not model the down-sampling merge",
+       "REQ merges of sketches with different k are outside (c): req_sketch keeps its own k and publishes bounds for it (see notes/C08-report.md)",
        "rank(v) * n is logged as an integer with the residual required below 1e-6",
        "(c) is an acceptance predicate over samples: thresholds p + 6 sqrt(p(1-p)/trials) + 0.02, trials (not queries) counted as independent"])
 def run_c08(oc, repo, seed, tier):
